@@ -1043,3 +1043,162 @@ def counter_widths(P, R, rule, recs=None):
         n += 1
         R.ob(rule, wide, s, 'counter %s.%s is kept in %s%s: at least the range of int' % (rec or '<anonymous>', fld, t, (' : %s' % fd.get('bitfield')) if fd.get('bitfield') else ''), key='counter-width:%s.%s' % (rec, fld))
     return n
+
+
+NARROW_LOCAL_OK = {
+    ('irc_pton', 'pos'): 'an offset inside the input text (the helper returned an offset inside its argument)',
+}
+
+
+def narrowing_locals(P, R, rule, fns):
+    """In value-computing code (the address parser and mask test) a local that accumulates or carries a number is as wide
+    as the expression assigned to it: an assignment that loses high-order bits - a prefix length built in an unsigned
+    char and tested against its limit only afterwards - is accepted only when the numeric analysis bounds the value
+    inside the local's range, or it is one of the frozen, reasoned cases."""
+    from . import numeric
+
+    def bits_of(tr):
+        return max(abs(tr[0]), abs(tr[1]) + 1).bit_length()
+    n = 0
+    for f in fns:
+        an = None
+        for s in f.sites():
+            ev = s.ev
+            if ev['k'] == 'store' and is_var(ev.get('lhs')) and ev['lhs'].get('sc') in ('local', 'param') and ev.get('op') in ('=', '+=', '|=', '-=', '*='):
+                name, lt, rhs = ev['lhs']['name'], ev['lhs'].get('t'), ev.get('rhs')
+            elif ev['k'] == 'decl' and ev.get('init') is not None:
+                name, lt, rhs = ev.get('var'), ev.get('t'), ev['init']
+            else:
+                continue
+            lr = numeric.type_range(lt or '')
+            if not lr or not isinstance(rhs, dict) or rhs.get('castto') or isinstance(const_of(rhs), int):
+                continue
+            rr = numeric.type_range(_expr_type(rhs) or '')
+            if not rr or bits_of(rr) <= bits_of(lr):
+                continue
+            lo = hi = None
+            try:
+                an = an or numeric.Analysis(f)
+                lo, hi = an.range_of(rhs, an.at(s))
+            except Exception:
+                pass
+            if lo is not None and lo >= lr[0] and hi <= lr[1]:
+                continue
+            why = NARROW_LOCAL_OK.get((f.name, name.split('#')[0]))
+            n += 1
+            R.ob(rule, bool(why), s, 'in %s the value assigned to %s (%s) fits it: the expression has type %s, inferred range [%s, %s]%s' % (f.name, name, lt, _expr_type(rhs), lo, hi, (' - accepted: ' + why) if why else ''),
+                 key='narrow-local:%s:%s' % (f.name, name.split('#')[0]), nontrivial=not why)
+    R.ob(rule, True, None, 'scanned the local assignments of %s for narrowing conversions' % ', '.join(f.name for f in fns), key='narrow-local-scan', nontrivial=False)
+    return n
+
+
+def freed_elements_cut(P, R, rule, units):
+    """Elements of a vector that have been freed are cut off: behind `free(X.vec[i])` every path to the function's exit
+    stores a new element count into X.used (or frees the array itself).  Without it the vector keeps pointers to freed
+    strings: the next append lands behind them and the next clear frees them again."""
+    n = 0
+    for f in P.fns.values():
+        if f.unit not in units:
+            continue
+        for s in f.calls():
+            if s.ev.get('callee') not in ('xfree', 'free') or not s.ev['args']:
+                continue
+            a = s.ev['args'][0]
+            if not (isinstance(a, dict) and a.get('k') == 'idx' and isinstance(a.get('base'), dict) and a['base'].get('k') == 'mem' and a['base'].get('field') == 'vec'):
+                continue
+            owner = sx(a['base'].get('base'))
+
+            def cuts(t, owner=owner):
+                ev = t.ev
+                if ev['k'] == 'store' and (ev.get('lhs') or {}).get('k') == 'mem' and ev['lhs'].get('field') == 'used' and sx(ev['lhs'].get('base')) == owner and ev.get('op') == '=':
+                    return True
+                if ev['k'] == 'call' and ev.get('callee') in ('xfree', 'free') and ev['args'] and sx(ev['args'][0]) == '%s%svec' % (owner, '->' if a['base'].get('arrow') else '.'):
+                    return True
+                if ev['k'] == 'call' and ev.get('callee') == 'memset' and ev['args'] and owner in sx(ev['args'][0]) and 'vec' not in sx(ev['args'][0]):
+                    return True
+                # the vector's own clear / wipe resets the count
+                if ev['k'] == 'call' and (ev.get('callee') or '').endswith(('_clear', '_wipe')) and ev['args'] and sx(ev['args'][0]).lstrip('&') == owner:
+                    return True
+                return False
+            n += 1
+            R.ob(rule, f.path_avoiding(s, cuts) is None, s, 'in %s the elements of %s freed here are cut off (a new count is stored) before the function returns' % (f.name, owner), key='freed-cut:%s' % f.name)
+    return n
+
+
+def iterate_while_removing(P, R, rule, units):
+    """A walk over a container whose body may dispose the current element reads that element's links BEFORE the body
+    runs: behind a call that may remove the element the iterator points at (it is handed the element: `it + 1`,
+    set_node_data(it)), the iterator itself is not dereferenced again in that iteration - the successor was saved in
+    another variable first."""
+    # functions that may remove an element from a container: call set_remove (transitively, within the unit)
+    removers = set()
+    changed = True
+    while changed:
+        changed = False
+        for f in P.fns.values():
+            if f.key in removers or f.unit.startswith('tests/'):
+                continue
+            for s in f.calls():
+                c = s.ev.get('callee')
+                if c in ('set_remove', 'set_dispose_node') or any(t.key in removers for t in P.callees(s, False)):
+                    removers.add(f.key)
+                    changed = True
+                    break
+    n = 0
+    # reasoned exception: the merge function handed (target, source) with a source updates the target in place - its
+    # "different kind" replacement branch cannot be taken from the merge loop, because the container's comparator
+    # orders by (name, kind), so elements that compare equal have the same kind.  Premise re-checked on every run.
+    cmpf = P.fn('conf_object_cmp')
+    premise = cmpf is not None and any(x.get('k') == 'mem' and x.get('field') == 'type' for s in cmpf.sites() for ex in event_exprs(s.ev) for x in walk(ex))
+    R.exception(rule, 'conf_replace_value(target, source != NULL) treated as not disposing its target', 'elements matched by the (name, kind) comparator have the same kind, so the replace-by-kind branch is unreachable from the merge', premise)
+    done = set()
+    for f in P.fns.values():
+        if f.unit not in units:
+            continue
+        its = {x['name'] for s in f.sites() for ex in event_exprs(s.ev) for x in walk(ex) if x.get('k') == 'var' and x.get('t', '').replace('const ', '').startswith('struct set_node *') and x.get('sc') == 'local'}
+        for head, body in loops_of(f):
+            for b in body:
+                for s in f.block_sites(b):
+                    if s.ev['k'] != 'call' or (s.key, head) in done:
+                        continue
+                    c = s.ev.get('callee')
+                    if not (c in ('set_remove',) or any(t.key in removers for t in P.callees(s, False))):
+                        continue
+                    if c == 'conf_replace_value' and premise and len(s.ev['args']) > 1 and const_of(s.ev['args'][1]) != 0:
+                        continue
+                    # innermost loop only
+                    if any(h2 != head and s.bid in b2 and b2 < body for h2, b2 in loops_of(f)):
+                        continue
+                    done.add((s.key, head))
+                    cur = [v for v in its if any(is_var(x, v) for a in s.ev['args'] for x in walk(a))]
+                    for v in cur:
+                        # events behind the call inside this iteration (until the loop head) that dereference v
+                        bad = []
+                        seen = set()
+                        work = [(s.bid, s.idx + 1)]
+                        while work:
+                            bb, i0 = work.pop()
+                            if (bb, i0) in seen:
+                                continue
+                            seen.add((bb, i0))
+                            stop = False
+                            for t in f.block_sites(bb)[i0:]:
+                                if t.ev['k'] == 'store' and is_var(t.ev.get('lhs'), v) and not any(is_var(x, v) for x in walk(t.ev.get('rhs'))):
+                                    stop = True
+                                    break
+                                for ex in event_exprs(t.ev):
+                                    if derefs_of(ex, v) or any(x.get('k') == 'callref' and x.get('callee') in ('set_next', 'set_prev') and any(is_var(a, v) for a in x.get('args', [])) for x in walk(ex)):
+                                        bad.append(t)
+                            if stop:
+                                continue
+                            for e in f.out[bb]:
+                                if e.dst != head and e.dst in body:
+                                    work.append((e.dst, 0))
+                                elif e.dst == head:
+                                    c2 = f.term_cond(head)
+                                    if c2 is not None and any(x.get('k') == 'mem' and is_var(x.get('base'), v) for x in walk(c2)):
+                                        bad.append(s)
+                        n += 1
+                        R.ob(rule, not bad, s, 'in %s the walk does not touch %s again after %s(...) may have disposed the element it points at%s' % (f.name, v, c or 'the call', (' (read at %s)' % bad[0].loc) if bad else ''),
+                             key='iter-remove:%s:%s' % (f.name, v))
+    return n
